@@ -71,6 +71,9 @@ CONSTANTS MaxDepth,      \* longest chain of path-symbol definitions
           Deviations     \* named deviations switched on ({} when a property is checked)
 
 D4 == "AbsoluteSuffixWins" \in Deviations
+\* sharpness control (never a finding): what an argument accepts is decided once per SYMBOL - a symbol that has
+\* been referred to successfully is not checked again
+OncePerSymbol == "ValidatedOncePerSymbol" \in Deviations
 
 \* ---- vocabulary -----------------------------------------------------------------------------
 Opts         == {"home", "acthome", "act", "tmp", "result", "cd", "here"}
@@ -297,10 +300,12 @@ RefOf(x) == IF IsBase(x) \/ (D4 /\ SfxAbs(x.sfx) /\ SfxConst(x.sfx)) THEN 0 ELSE
 
 Define(i) == IF i.op = "def" THEN Append(symtab, Eval(i.x, symtab, Default("def"))) ELSE symtab
 
+Mentioned(sym) == OncePerSymbol /\ \E j \in 1..(pc - 1) : prog[j].op = "mention" /\ prog[j].x.sym = sym
 ValidateOk ==
   /\ stage = "validate" /\ Frame
   /\ LET i == prog[pc] IN
-     /\ RefOf(i.x) # 0 => Kind(symtab[RefOf(i.x)].root) \in Must(i.role, phase) \cup May(i.role, phase)
+     /\ RefOf(i.x) # 0 => \/ Kind(symtab[RefOf(i.x)].root) \in Must(i.role, phase) \cup May(i.role, phase)
+                          \/ Mentioned(RefOf(i.x))
      /\ symtab' = Define(i)
   /\ NextInstr("exec")
   /\ UNCHANGED <<cwd, uses, created, nexec, cwdAtDef>>
@@ -309,6 +314,7 @@ ValidateReject ==
   /\ stage = "validate" /\ Frame
   /\ LET i == prog[pc] IN
      /\ RefOf(i.x) # 0 /\ Kind(symtab[RefOf(i.x)].root) \notin Must(i.role, phase)
+     /\ ~Mentioned(RefOf(i.x))
      /\ MayReject \/ Kind(symtab[RefOf(i.x)].root) \notin May(i.role, phase)
   /\ End("VALIDATION_ERROR")
 
